@@ -1695,10 +1695,11 @@ func compileLogicalOpExprAux(context *funcContext, reg int, expr ast.Expr, ec *e
 		}
 	} else {
 		reg += compileExpr(context, reg, expr, ecnone(0))
-		if !hasnextcond {
-			code.AddABC(OP_TEST, a, 0, 0^flip, sline(expr))
-		} else {
+		if (isLastAnd || isLastOr) && sreg != a {
+			// the short-circuit exit leaves the expression: this operand is its value
 			code.AddABC(OP_TESTSET, sreg, a, 0^flip, sline(expr))
+		} else {
+			code.AddABC(OP_TEST, a, 0, 0^flip, sline(expr))
 		}
 	}
 	code.AddASbx(OP_JMP, 0, jumplabel, sline(expr))
